@@ -156,7 +156,7 @@ RULE_TRANSFER = ("seeded scenarios: configuration drawn from {nil, aes-128, 3des
 
 
 def check_c09(tier, replay):
-    inv = ["C09_Layout", "C09_ParityIsReedSolomon", "C09_FecTypeMatchesPosition", "C09_FecSequence", "C09_NonceFresh", "C09_WireReassembles"]
+    inv = ["C09_Layout", "C09_ParityIsReedSolomon", "C09_FecTypeMatchesPosition", "C09_FecIdInRange", "C09_FecSequence", "C09_NonceFresh", "C09_WireReassembles"]
     return generic_sess_check("C09", tier, replay, "model_checking", inv, "TestSessTransfer$", ("sess_transfer",),
                               dict(SESS_RUNS=200), dict(SESS_RUNS=2500), RULE_TRANSFER + "; every datagram at the WriteTo boundary is decoded by the "
                               "independent parser and judged by the C09 monitors; the stream is reassembled from the wire alone",
@@ -200,7 +200,7 @@ def check_c10(tier, replay):
 
 
 def check_c19(tier, replay):
-    inv = ["C19_IntactOrAbsent", "C19_RefusalRule", "C19_OOBFrame", "C09_FecSequence", "C09_FecTypeMatchesPosition", "C01_ReadIsNextBytes",
+    inv = ["C19_IntactOrAbsent", "C19_RefusalRule", "C19_OOBFrame", "C09_FecSequence", "C09_FecTypeMatchesPosition", "C09_FecIdInRange", "C01_ReadIsNextBytes",
            "C02_TransferCompletes", "C10_LenWithinMtu"]
     return generic_sess_check("C19", tier, replay, "model_checking", inv, "TestSessTransfer$", ("sess_transfer",),
                               dict(SESS_RUNS=200, SESS_OOB=1), dict(SESS_RUNS=2500, SESS_OOB=1),
